@@ -1,6 +1,8 @@
-SPECIFICATION Spec
+SPECIFICATION FairSpec
 CONSTANTS
   N = 4
   TopIdentityLost = FALSE
 INVARIANT Bounded
 INVARIANT Correct
+PROPERTY Terminates
+PROPERTY VerdictOnce
